@@ -37,7 +37,7 @@ META = {
     'assumptions': ['handlers run to completion (Twisted reactor)'],
     'decided': ['D1 sender order', 'D2 declared count and index; the '
                 'descriptor list is handed on to every nested codec call',
-                'D3 receiver FIFO', 'D4 fresh list per message'],
+                'D3 receiver FIFO; every message type consumes its declared descriptors', 'D4 fresh list per message'],
     'undecided': ['attribution under concrete arrival interleavings'],
 }
 
@@ -216,6 +216,8 @@ def run(ctx):
                       c[3] == (pc, C('unix_fds')) and not pol
                       for c, pol in p.cond)
         if has:
+            # ... whatever the type of the message (a reply or a signal may
+            # carry descriptors too)
             ok = len(stores) == 1 and stores[0][3] == (
                 'sub', queue, ('slice', count, NONE, NONE))
             ctx.ob('C20.D3', xfi.qualname, 'consumes-count-from-front', ok,
@@ -230,6 +232,16 @@ def run(ctx):
             ctx.ob('C20.D3', xfi.qualname, 'consumption-guarded', not stores,
                    'queue consumption must depend on the presence of the '
                    'unix_fds header')
+            # ... and a path that never asks whether the message declares
+            # descriptors leaves them at the head of the queue for the next
+            # message (whatever the message type: replies and signals carry
+            # descriptors too)
+            ctx.ob('C20.D3', xfi.qualname, 'every-message-type-consumes',
+                   False, 'a message is dispatched on a path that does not '
+                   'look at its unix_fds header (%s): descriptors it '
+                   'declares stay queued and are resolved by the NEXT '
+                   'message that carries any' % [
+                       (term_str(c)[-40:], pol) for c, pol in p.cond[-2:]])
     # D2: the descriptor list reaches every nested decoder/encoder ---------------
     # (a descriptor argument inside a struct, dict entry or array resolves
     # its index in the list the message came with - only if every container
